@@ -1171,11 +1171,21 @@ def c18_binding_graphs(rng, n):
                 a, b = rng.choice(known), rng.choice(known)
                 lastk = {i: k for i, k in vs}
                 k = lastk[a]
-                es.append((0, [a, b], (PDIM[KINDS[k]],) * 2, k, 0))
+                sh = (PDIM[KINDS[k]],) * 2
+                ek = k
+                if rng.random() < 0.2:      # an inconsistent library edge anywhere in the list (wrong information shape / measurement type)
+                    if rng.random() < 0.5:
+                        sh = (sh[0], sh[1] + 1)
+                    else:
+                        ek = (k + 1) % 4
+                es.append((0, [a, b], sh, ek, 0))
             else:
                 a, b = rng.choice(known), rng.choice(known)
                 lastk = {i: k for i, k in vs}
-                es.append((1, [a, b], (PDIM[KINDS[lastk[b]]],) * 2, lastk[b], lastk[a]))
+                sh = (PDIM[KINDS[lastk[b]]],) * 2
+                if rng.random() < 0.2:
+                    sh = (sh[0] + 1, sh[1])
+                es.append((1, [a, b], sh, lastk[b], lastk[a]))
         out.append((es, vs))
     return out
 
@@ -1204,16 +1214,48 @@ def binding_impl(g):
             E.append(EdgeLandmark(list(ids), info, mk_other(e, 'est'), offset=mk_other(o, 'off')))
         else:
             E.append(K0(list(ids), info, mk_other(e, 'est')))
+    # the declarative outcome for a multi-edge construction: unknown id anywhere -> KeyError (binding comes first); else any inconsistent
+    # edge, at ANY position of the list -> AssertionError; else accepted
+    lastk = {i: k for i, k in vs}
+    if any(i not in lastk for _, ids, _, _, _ in es for i in ids):
+        want = 'K'
+    else:
+        def edge_ok(c, ids, sh, e, o):
+            kinds = [KINDS[lastk[i]] for i in ids]
+            estk = KINDS[e] if e < 4 else None
+            offk = KINDS[o] if o < 4 else None
+            if c == 0:
+                return len(ids) == 2 and kinds[0] == kinds[1] and estk == kinds[0] and tuple(sh) == (PDIM[kinds[0]],) * 2
+            if c == 1:
+                return len(ids) == 2 and (kinds[0], kinds[1]) in LM_PAIRS and offk == kinds[0] and estk == kinds[1] and tuple(sh) == (PDIM[kinds[1]],) * 2
+            return True
+        want = 'O' if all(edge_ok(*e) for e in es) else 'A'
+    # some edge objects arrive ALREADY BOUND (reused from an earlier graph, or constructed with vertices=[...]) to foreign Vertex objects that
+    # carry the same ids with other pose classes: construction must re-bind every edge to the vertices of THIS graph and judge validity there
+    if (sum(i for i, _ in vs) + len(es)) % 3 == 0:
+        for ed in E:
+            try:
+                ed.vertices = [Vertex(i, mkpose(KINDS[(lastk.get(i, 0) + (1 if len(E) % 2 else 0)) % 4], 7)) for i in ed.vertex_ids]
+            except Exception:  # noqa
+                pass
     try:
         Graph(E, V)
     except Exception as ex:
-        return [777, exn_small(ex)], None
+        code = exn_small(ex)
+        got = {1: 'K', 2: 'A'}.get(code, 'X')
+        return [777, code], (None if got == want else 'construction raised %s, the specification says %s' % (type(ex).__name__, {'K': 'KeyError', 'A': 'AssertionError', 'O': 'accepted'}[want]))
     flat = [777, 0]
     bad = None
+    if want != 'O':
+        bad = 'construction was accepted, the specification says %s (an inconsistent edge or an unknown id somewhere in the edge list)' % {'K': 'KeyError', 'A': 'AssertionError'}[want]
     for ed in E:
         for v, i in zip(ed.vertices, ed.vertex_ids):
             flat += [v.id, v.gradient_index]
-            last = [w for w in V if w.id == i][-1]
+            cands = [w for w in V if w.id == i]
+            if not cands:
+                bad = bad or 'an edge naming the unknown id %r was accepted and is bound to a vertex that is not in the graph' % (i,)
+                continue
+            last = cands[-1]
             if v.id != i or v is not last:
                 bad = 'slot naming id %r is bound to vertex id %r (not the last vertex carrying that id)' % (i, v.id)
         if len(ed.vertices) != len(ed.vertex_ids):
